@@ -67,6 +67,84 @@ def returns_count_of(body, call_blk, siblings=()):
     return good
 
 
+def decoder_zero_count_rule(prog, rep, RULE='R13.4'):
+    """an `impl Read::read` that returns a count produced by BrotliDecompressStream excludes 0 before returning Ok(count) mid-stream (shared with C02: the
+    repair loop takes Ok(0) for the end of a block)"""
+    mla = prog.crates['mla']
+    for body in mla.bodies:
+        if body.impl_trait != 'std::io::Read' or body.name != 'read' or body.kind == 'Closure':
+            continue
+        dec = [b for b in body.calls() if cnorm(b.term).endswith('BrotliDecompressStream')]
+        if not dec:
+            continue
+        rep.fn(body)
+        d = dec[0]
+        # out-parameters of the decoder that are counts
+        outs = set()
+        for a, aty in zip(d.term.args, d.term.arg_tys):
+            if a.place is not None and aty.startswith('&mut usize'):
+                outs |= {l for l in origins(body, [a.place[0]], through_calls=False).locals if body.lty(l) == 'usize'}
+        oks = []
+        # Ok results that follow a decode step without another fill from the inner source in between: a count produced by the decoder, or a
+        # literal (`Ok(0)`) -- the latter has no count local (None)
+        refill = [b.idx for b in body.calls() if b.term.ctrait == 'std::io::Read' and b.term.cmethod in RAW_R and b.idx != d.idx]
+        after_dec = body.reachable(d.term.target, removed_blocks=refill) if d.term.target is not None else set()
+        for bl in body.blocks:
+            if bl.cleanup:
+                continue
+            for i, s in enumerate(bl.stmts):
+                if s.kind == 'assign' and s.rv.r == 'aggregate' and s.rv.j.get('variant') == 'Ok' and 'Result' in (s.rv.j.get('adt') or '') and s.rv.ops:
+                    if s.rv.ops[0].place is not None:
+                        src = origins(body, [s.rv.ops[0].place[0]], through_calls=False).locals
+                        if src & outs and body.dominates(d.idx, bl.idx):
+                            oks.append((bl.idx, i, s.rv.ops[0].place[0]))
+                    elif bl.idx in after_dec and body.lty(s.place[0]).startswith('std::result::Result<usize') and const_int_of(body, s.rv.ops[0]) == 0:
+                        oks.append((bl.idx, i, None))
+        # edges on which the count is known non-zero, and edges on which the caller's buffer is empty (Ok(0) is then the contractual answer)
+        nz_edges = []
+        for bl in body.blocks:
+            si = switch_info(prog, body, bl.idx)
+            if not si or si['kind'] != 'bool':
+                continue
+            e = expr_of(body, si['cond'])
+            if e[0] == 'binop' and e[1] in ('Eq', 'Ne', 'Gt') and e[3][0] == 'const' and e[3][1] == 0 and e[2][0] == 'place' and \
+                    origins(body, [e[2][1][0]], through_calls=False).locals & outs:
+                nz_edges.append((bl.idx, si['false'] if e[1] == 'Eq' else si['true'], e[2][1][0]))
+                continue
+            r = branch_on_call(prog, body, bl.idx)
+            if r and r[1].cmethod == 'is_empty' and r[1].args and r[1].args[0].place is not None and 2 in origins(body, [r[1].args[0].place[0]], through_calls=False).params:
+                nz_edges.append((bl.idx, r[2], None))
+        # the decoder reports NeedsMoreOutput only when the output window it was given is full: the count is then the window size, which is 0
+        # only for an empty buffer or at the per-block cap (trusted brotli semantics, listed in TRUSTED)
+        full_arm = None
+        for sbb, si in arm_of_enum_switch(prog, body):
+            if 'BrotliResult' in (si['adt'] or ''):
+                full_arm = (sbb, enum_arm_target(si, 'NeedsMoreOutput'))
+        unguarded = []
+        for (bb, i, l) in oks:
+            if full_arm and full_arm[1] is not None and body.edge_dominates(full_arm, bb):
+                continue
+            rel = [(sb, t) for sb, t, cl in nz_edges if cl is None or l is None or cl in origins(body, [l], through_calls=False).locals or l in origins(body, [cl], through_calls=False).locals]
+            # is the Ok block reachable from the decoder without crossing one of those edges?
+            cut_all = set()
+            for sb, t in rel:
+                for t2 in body.succs(sb):
+                    if t2 != t:
+                        pass
+            # remove the complementary edges' targets: walk the graph where, at each guard block, only the non-guarding successors are followed
+            guards = {}
+            for sb, t in rel:
+                guards.setdefault(sb, set()).add(t)
+            removed = [(sb, t) for sb, ts in guards.items() for t in ts]
+            r = body.reachable(d.term.target, removed_edges=removed, removed_blocks=refill) if d.term.target is not None else set()
+            if bb in r:
+                unguarded.append(body.loc(bb, i))
+        key = RULE + '|%s|decoder-count-may-be-zero' % body.nkey
+        rep.ob(RULE, bool(oks) and not unguarded, key, '%d Ok(count) exits after the decoder all exclude 0' % len(oks) if (oks and not unguarded) else
+               'Ok(count) with a count produced by the brotli decoder is returned without excluding 0 (%s): when the source hands over few bytes per read the decoder '
+               'produces nothing yet and the reader reports end of stream mid-block' % ', '.join(unguarded), body.loc(d.idx))
+
+
 def run(prog, rep, tier):
     # ---------------- R13.1 / R13.2 raw writes
     nw = 0
@@ -252,75 +330,4 @@ def run(prog, rep, tier):
     rep.floor('R13.5', nsite, 2, 'constructions of a block decompressor')
 
     # ---------------- R13.4 no decoder-produced zero count mid-stream
-    for body in mla.bodies:
-        if body.impl_trait != 'std::io::Read' or body.name != 'read' or body.kind == 'Closure':
-            continue
-        dec = [b for b in body.calls() if cnorm(b.term).endswith('BrotliDecompressStream')]
-        if not dec:
-            continue
-        rep.fn(body)
-        d = dec[0]
-        # out-parameters of the decoder that are counts
-        outs = set()
-        for a, aty in zip(d.term.args, d.term.arg_tys):
-            if a.place is not None and aty.startswith('&mut usize'):
-                outs |= {l for l in origins(body, [a.place[0]], through_calls=False).locals if body.lty(l) == 'usize'}
-        oks = []
-        # Ok results that follow a decode step without another fill from the inner source in between: a count produced by the decoder, or a
-        # literal (`Ok(0)`) -- the latter has no count local (None)
-        refill = [b.idx for b in body.calls() if b.term.ctrait == 'std::io::Read' and b.term.cmethod in RAW_R and b.idx != d.idx]
-        after_dec = body.reachable(d.term.target, removed_blocks=refill) if d.term.target is not None else set()
-        for bl in body.blocks:
-            if bl.cleanup:
-                continue
-            for i, s in enumerate(bl.stmts):
-                if s.kind == 'assign' and s.rv.r == 'aggregate' and s.rv.j.get('variant') == 'Ok' and 'Result' in (s.rv.j.get('adt') or '') and s.rv.ops:
-                    if s.rv.ops[0].place is not None:
-                        src = origins(body, [s.rv.ops[0].place[0]], through_calls=False).locals
-                        if src & outs and body.dominates(d.idx, bl.idx):
-                            oks.append((bl.idx, i, s.rv.ops[0].place[0]))
-                    elif bl.idx in after_dec and body.lty(s.place[0]).startswith('std::result::Result<usize') and const_int_of(body, s.rv.ops[0]) == 0:
-                        oks.append((bl.idx, i, None))
-        # edges on which the count is known non-zero, and edges on which the caller's buffer is empty (Ok(0) is then the contractual answer)
-        nz_edges = []
-        for bl in body.blocks:
-            si = switch_info(prog, body, bl.idx)
-            if not si or si['kind'] != 'bool':
-                continue
-            e = expr_of(body, si['cond'])
-            if e[0] == 'binop' and e[1] in ('Eq', 'Ne', 'Gt') and e[3][0] == 'const' and e[3][1] == 0 and e[2][0] == 'place' and \
-                    origins(body, [e[2][1][0]], through_calls=False).locals & outs:
-                nz_edges.append((bl.idx, si['false'] if e[1] == 'Eq' else si['true'], e[2][1][0]))
-                continue
-            r = branch_on_call(prog, body, bl.idx)
-            if r and r[1].cmethod == 'is_empty' and r[1].args and r[1].args[0].place is not None and 2 in origins(body, [r[1].args[0].place[0]], through_calls=False).params:
-                nz_edges.append((bl.idx, r[2], None))
-        # the decoder reports NeedsMoreOutput only when the output window it was given is full: the count is then the window size, which is 0
-        # only for an empty buffer or at the per-block cap (trusted brotli semantics, listed in TRUSTED)
-        full_arm = None
-        for sbb, si in arm_of_enum_switch(prog, body):
-            if 'BrotliResult' in (si['adt'] or ''):
-                full_arm = (sbb, enum_arm_target(si, 'NeedsMoreOutput'))
-        unguarded = []
-        for (bb, i, l) in oks:
-            if full_arm and full_arm[1] is not None and body.edge_dominates(full_arm, bb):
-                continue
-            rel = [(sb, t) for sb, t, cl in nz_edges if cl is None or l is None or cl in origins(body, [l], through_calls=False).locals or l in origins(body, [cl], through_calls=False).locals]
-            # is the Ok block reachable from the decoder without crossing one of those edges?
-            cut_all = set()
-            for sb, t in rel:
-                for t2 in body.succs(sb):
-                    if t2 != t:
-                        pass
-            # remove the complementary edges' targets: walk the graph where, at each guard block, only the non-guarding successors are followed
-            guards = {}
-            for sb, t in rel:
-                guards.setdefault(sb, set()).add(t)
-            removed = [(sb, t) for sb, ts in guards.items() for t in ts]
-            r = body.reachable(d.term.target, removed_edges=removed, removed_blocks=refill) if d.term.target is not None else set()
-            if bb in r:
-                unguarded.append(body.loc(bb, i))
-        key = 'R13.4|%s|decoder-count-may-be-zero' % body.nkey
-        rep.ob('R13.4', bool(oks) and not unguarded, key, '%d Ok(count) exits after the decoder all exclude 0' % len(oks) if (oks and not unguarded) else
-               'Ok(count) with a count produced by the brotli decoder is returned without excluding 0 (%s): when the source hands over few bytes per read the decoder '
-               'produces nothing yet and the reader reports end of stream mid-block' % ', '.join(unguarded), body.loc(d.idx))
+    decoder_zero_count_rule(prog, rep, 'R13.4')
